@@ -268,8 +268,15 @@ def gen_history(rng, opts=None):
     ]
     if rng.random() < 0.5:
         dirty.append({"o": "rmwt", "path": "README.md"})
-    return {"dir": d, "ext": e, "fork": fork, "steps": steps, "head": head, "dirty": dirty,
+    hist = {"dir": d, "ext": e, "fork": fork, "steps": steps, "head": head, "dirty": dirty,
             "mid": rng.randrange(0, nsteps)}
+    # a branch or lightweight tag whose *name* is the 7-digit abbreviation of commit `of` but which points at another
+    # commit `at`: `--input.git.commit <abbreviation>` still means the commit (other refs must not matter)
+    if nsteps >= 2 and opts.get("hexref", rng.random() < 0.6):
+        of = rng.randrange(nsteps)
+        at = rng.choice([k for k in range(nsteps) if k != of])
+        hist["hexref"] = {"of": of, "at": at, "kind": rng.choice(["branch", "tag"])}
+    return hist
 
 
 def replay_states(hist):
@@ -454,6 +461,14 @@ def build_repo(hist):
     for cid in ids:
         # unique abbreviations (among all objects) of at least the wanted length
         short.append({str(n): git(repo, "rev-parse", "--short=%d" % n, cid).decode().strip() for n in (7, 9, 12)})
+    hx = hist.get("hexref")
+    if hx:
+        # created last (no new objects, so the abbreviations above stay unique); absent from the mid snapshot
+        name = short[hx["of"]]["7"]
+        if hx["kind"] == "tag":
+            git(repo, "tag", name, ids[hx["at"]])
+        else:
+            git(repo, "branch", "-q", name, ids[hx["at"]])
     info = {"key": key, "repo": repo, "mid": mid, "ids": ids, "trees": trees, "checkouts": checkouts, "heads": heads,
             "short": short}
     # self-check of the generator: git's tree of every commit is the recorded state
@@ -750,10 +765,15 @@ class C08(PropBase):
                     chosen = [forms[0]] + rng.sample(forms[1:], min(2, len(forms) - 1))
                     if cls != "plain":
                         chosen = rng.sample(chosen, 2)
+                    hx = hist.get("hexref")
+                    hexcase = bool(hx) and hx["of"] == idx and stage == "final" and cls == "plain"
+                    if hexcase and forms[1] not in chosen:
+                        chosen.append(forms[1])      # the 7-digit abbreviation that is also the name of a ref
                     for f in chosen:
                         via = rng.random() < 0.3 or cls == "dotted-ext" and rng.random() < 0.7
                         out.append({
-                            "op": "git", "kind": cls + ("@mid-snapshot" if stage == "mid" else ""),
+                            "op": "git", "kind": cls + ("@mid-snapshot" if stage == "mid" else "") + (
+                                "+abbrev-is-refname" if hexcase and f is forms[1] else ""),
                             "hist": hist, "commit": idx, "stage": stage, "sel": f, "dir": sd, "ext": se,
                             "via_settings": via, "repo_form": rng.choice(["worktree", "dotgit"]), "cfg": {},
                         })
